@@ -290,7 +290,9 @@ func (a *apiWorld) genValid(t *rapid.T) httpReq {
 			body["script"] = map[string]any{"plain": "vars {\n account $dst\n monetary $m\n}\nsend $m (\n source = @world\n destination = $dst\n)",
 				"vars": map[string]any{"dst": rapid.SampledFrom(apiAddresses[1:]).Draw(t, "dst"), "m": map[string]any{"asset": "USD/2", "amount": json.Number(fmt.Sprint(rapid.IntRange(0, 50).Draw(t, "amt")))}}}
 		default:
-			body["script"] = map[string]any{"plain": "send [EUR 3] (\n source = @world\n destination = @u:1\n)\nset_tx_meta(\"a\", \"b\")", "vars": map[string]any{}}
+			body["script"] = map[string]any{"plain": "vars {\n number $n\n string $s\n asset $a\n portion $p\n}\nsend [$a 30] (\n source = @world\n destination = {\n  $p to @u:1\n  remaining to @u:2\n }\n)\nset_tx_meta(\"n\", $n)\nset_tx_meta(\"s\", $s)",
+				"vars": map[string]any{"n": rapid.SampledFrom([]any{json.Number("3"), "3", "null", "-1", "1e3", ""}).Draw(t, "numberVar"), "s": rapid.SampledFrom([]string{"x", "", "null"}).Draw(t, "stringVar"),
+					"a": rapid.SampledFrom([]string{"EUR", "USD/2", "null", "eur"}).Draw(t, "assetVar"), "p": rapid.SampledFrom([]string{"1/3", "50%", "0", "1", "2/1", "null", "x"}).Draw(t, "portionVar")}}
 		}
 		if rapid.IntRange(0, 2).Draw(t, "withMeta") == 0 {
 			body["metadata"] = meta()
@@ -477,6 +479,27 @@ func (a *apiWorld) genValid(t *rapid.T) httpReq {
 			r.Query.Set("atomic", "true")
 			r.Partial = false
 		}
+	case "v2 POST /_bulk script-stream":
+		r.Method, r.Path, r.Write, r.Partial = "POST", base+"/_bulk", true, true
+		r.Headers["Content-Type"] = "application/vnd.formance.ledger.api.v2.bulk+script-stream"
+		var sb strings.Builder
+		for i, n := 0, rapid.IntRange(1, 3).Draw(t, "scripts"); i < n; i++ {
+			sb.WriteString("//script")
+			if rapid.IntRange(0, 2).Draw(t, "streamIK") == 0 {
+				sb.WriteString(" ik=" + rapid.SampledFrom(ikPool).Draw(t, "ik"))
+			}
+			sb.WriteString("\nsend [USD/2 " + fmt.Sprint(rapid.IntRange(0, 9).Draw(t, "amt")) + "] (\n source = @world\n destination = @" + rapid.SampledFrom(apiAddresses[1:]).Draw(t, "dst") + "\n)\n//end\n")
+		}
+		r.Body = []byte(sb.String())
+	case "v2 POST /_bulk json-stream":
+		r.Method, r.Path, r.Write, r.Partial = "POST", base+"/_bulk", true, true
+		r.Headers["Content-Type"] = "application/vnd.formance.ledger.api.v2.bulk+json-stream"
+		var sb strings.Builder
+		for i, n := 0, rapid.IntRange(1, 3).Draw(t, "elements"); i < n; i++ {
+			sb.Write(mustJSON(map[string]any{"action": "CREATE_TRANSACTION", "data": map[string]any{"postings": a.genPostingsJSON(t), "metadata": map[string]any{}}}))
+			sb.WriteString("\n")
+		}
+		r.Body = []byte(sb.String())
 	case "v2 POST /schemas/{version}":
 		r.Method, r.Path, r.Write = "POST", base+"/schemas/"+rapid.SampledFrom([]string{"v1", "v2", "v3"}).Draw(t, "version"), true
 		r.Body = []byte(c38Schema)
@@ -541,7 +564,7 @@ var apiRoutes = []string{
 	"v2 DELETE /accounts/{address}/metadata/{key}", "v1 DELETE /accounts/{address}/metadata/{key}",
 	"v2 GET /aggregate/balances", "v1 GET /aggregate/balances", "v1 GET /balances",
 	"v2 GET /volumes", "v2 GET /logs", "v1 GET /logs", "v2 POST /logs/export", "v2 POST /logs/import",
-	"v2 POST /_bulk", "v2 POST /schemas/{version}", "v2 GET /schemas/{version}", "v2 GET /schemas",
+	"v2 POST /_bulk", "v2 POST /_bulk script-stream", "v2 POST /_bulk json-stream", "v2 POST /schemas/{version}", "v2 GET /schemas/{version}", "v2 GET /schemas",
 	"v2 POST /queries/{id}/run", "v2 GET /_info", "v1 GET /_info", "v2 GET /stats", "v1 GET /stats",
 	"v2 GET /", "v2 GET /{ledger}", "v2 POST /{ledger}", "v2 PUT /{ledger}/metadata", "v2 DELETE /{ledger}/metadata/{key}",
 	"v1 POST /transactions/batch",
@@ -671,7 +694,32 @@ func (a *apiWorld) mutate(t *rapid.T, r httpReq) httpReq {
 	if isJSON && len(r.Body) > 0 {
 		kinds = append(kinds, "json-type", "json-type", "json-type", "json-delete", "json-targeted", "json-targeted", "json-truncate", "json-extra-field")
 	}
+	if !isJSON && len(r.Body) > 0 {
+		kinds = append(kinds, "text-line", "text-line", "text-line")
+	}
 	switch k := rapid.SampledFrom(kinds).Draw(t, "mutation"); k {
+	case "text-line":
+		// line-level damage to a text stream (script-stream bulk, concatenated JSON documents)
+		lines := strings.Split(string(r.Body), "\n")
+		i := rapid.IntRange(0, len(lines)-1).Draw(t, "line")
+		switch rapid.IntRange(0, 6).Draw(t, "lineOp") {
+		case 0:
+			lines = append(lines[:i], lines[i+1:]...)
+		case 1:
+			lines[i] = strings.SplitN(lines[i], "=", 2)[0]
+		case 2:
+			lines = append(lines[:i], append([]string{"//script"}, lines[i:]...)...)
+		case 3:
+			lines = append(lines[:i], append([]string{"//end"}, lines[i:]...)...)
+		case 4:
+			lines = lines[:i+1]
+		case 5:
+			lines[i] = lines[i] + "," + lines[i]
+		default:
+			lines[i] = rapid.SampledFrom([]string{"//script ik", "//script ik=", "//script ,", "//script x", "//script ik=a,ik=b", "//", "", "{", "null"}).Draw(t, "lineValue")
+		}
+		r.Body = []byte(strings.Join(lines, "\n"))
+		note("text line %d edited", i)
 	case "json-type":
 		var paths []jsonPath
 		collectPaths(doc, nil, &paths)
@@ -1047,7 +1095,7 @@ func (a *apiWorld) judge(r httpReq) apiVerdict {
 		return v
 	}
 	partial := r.Partial
-	if r.Route == "v2 POST /_bulk" {
+	if strings.HasPrefix(r.Route, "v2 POST /_bulk") {
 		partial = strings.ToLower(r.Query.Get("atomic")) != "true" // QueryParamBool: anything else is false
 	}
 	if rec.Code >= 400 && !partial {
@@ -1131,12 +1179,16 @@ func c38Pinned() string {
 		{httpReq{Route: "v2 POST /logs/import", Method: "POST", Path: "/v2/imp/logs/import", Write: true, Partial: true, Body: []byte(`{"type":"NOPE","data":{},"id":1}`)}, 4},
 		{httpReq{Route: "v2 POST /logs/import", Method: "POST", Path: "/v2/imp/logs/import", Write: true, Partial: true, Body: []byte(`{"type":"SET_METADATA","data":{"targetType":"X","targetId":1,"metadata":{}},"id":1}`)}, 4},
 		{httpReq{Route: "v2 POST /logs/import", Method: "POST", Path: "/v2/imp/logs/import", Write: true, Partial: true, Body: []byte(`{"type":"NEW_TRANSACTION","data":null,"id":1}`)}, 4},
+		{httpReq{Route: "v2 POST /logs/import", Method: "POST", Path: "/v2/imp/logs/import", Write: true, Partial: true, Body: []byte(`{"type":"NEW_TRANSACTION","data":{"transaction":{"postings":[{"source":"world","destination":"bank","amount":null,"asset":"USD/2"}],"metadata":{},"timestamp":"2023-01-01T00:00:00Z","id":1},"accountMetadata":{}},"date":"2023-01-01T00:00:00Z","id":1}`)}, 4},
 		{httpReq{Route: "v2 POST /logs/import", Method: "POST", Path: "/v2/imp/logs/import", Write: true, Partial: true, Body: []byte(`{"type":"SET_METADATA","data":{"targetType":"ACCOUNT","targetId":false,"metadata":{"k":"v"}},"date":"2023-01-01T00:00:01Z","id":1}`)}, 4},
 		{httpReq{Route: "v2 POST /logs/import", Method: "POST", Path: "/v2/imp/logs/import", Write: true, Partial: true, Body: []byte(`{"type":"NEW_TRANSACTION","data":{"transaction":{"postings":[]},"accountMetadata":{}}}`)}, 4},
 		{httpReq{Route: "v2 POST /logs/import", Method: "POST", Path: "/v2/imp/logs/import", Write: true, Partial: true, Body: []byte(`{"type":"SET_METADATA","data":{"targetType":"TRANSACTION","targetId":1,"metadata":{"k":"v"}},"date":"2023-01-01T00:00:02Z","idempotencyKey":"","id":3,"hash":null}`)}, 4},
 		{httpReq{Route: "v2 POST /logs/import", Method: "POST", Path: "/v2/imp/logs/import", Write: true, Partial: true, Body: []byte(`{"script":{"plain":"send"}}`)}, 4},
 		// the malformed stream above must not leave the ledger locked: its first write has to be answered
 		{httpReq{Route: "v2 POST /transactions", Method: "POST", Path: "/v2/imp/transactions", Write: true, Body: []byte(`{"postings":[{"source":"world","destination":"bank","asset":"USD/2","amount":1}]}`)}, 2},
+		{httpReq{Route: "v2 POST /_bulk script-stream", Method: "POST", Path: "/v2/l1/_bulk", Write: true, Partial: true, Headers: map[string]string{"Content-Type": "application/vnd.formance.ledger.api.v2.bulk+script-stream"}, Body: []byte("//script ik\nsend [USD/2 1] (\n source = @world\n destination = @bank\n)\n//end\n")}, 0},
+		{httpReq{Route: "v2 POST /_bulk script-stream", Method: "POST", Path: "/v2/l1/_bulk", Write: true, Partial: true, Headers: map[string]string{"Content-Type": "application/vnd.formance.ledger.api.v2.bulk+script-stream"}, Body: []byte("//script\n//end\n")}, 0},
+		{httpReq{Route: "v2 POST /transactions", Method: "POST", Path: "/v2/l1/transactions", Write: true, Body: []byte(`{"script":{"plain":"vars {\n number $n\n}\nsend [USD/2 1] (\n source = @world\n destination = @bank\n)\nset_tx_meta(\"n\", $n)","vars":{"n":"null"}}}`)}, 4},
 		{httpReq{Route: "v1 POST /transactions/{id}/metadata", Method: "POST", Path: "/l1/transactions/1/metadata", Write: true, Headers: map[string]string{"Idempotency-Key": "pin1"}, Body: []byte(`{"a":"b"}`)}, 2},
 		{httpReq{Route: "v1 POST /transactions/{id}/revert", Method: "POST", Path: "/l1/transactions/1/revert", Write: true, Headers: map[string]string{"Idempotency-Key": "pin1"}}, 4},
 	}
@@ -1178,7 +1230,7 @@ func TestC38(t *testing.T) {
 	if problem := c38Pinned(); problem != "" {
 		t.Fatalf("VIOLATION[C38] (pinned request): %s", problem)
 	}
-	st.Set("pinned_requests", 33)
+	st.Set("pinned_requests", 37)
 	if known.IsOpen(FindingAPIBalanceNoAsset) && reproduceAPIBalanceNoAsset() {
 		fmt.Println(known.Line(FindingAPIBalanceNoAsset))
 		st.Known(known.Line(FindingAPIBalanceNoAsset))
